@@ -46,8 +46,15 @@ def main(full: bool = False) -> int:
         good = (v == set()) if want == set() else (any(c.startswith("Conf_") for c in v) if want is None else want <= v)
         print(f"[selftest] trace '{name}': clauses {sorted(v)} -> {'ok' if good else 'UNEXPECTED'}")
         ok &= good
-    for variant, inv in (("ClassifyEq", "I_C04_Documented"), ("SnapNitOff", "I_C07_SnapNit"), ("LSAnyTrial", "I_C03_Monotone")):
-        cfg = open(SPEC / "MCDriver_quick.cfg").read().replace('Variant = "none"', f'Variant = "{variant}"')
+    for variant, inv, base in (("ClassifyEq", "I_C04_Documented", "MCDriver_quick.cfg"), ("SnapNitOff", "I_C07_SnapNit", "MCDriver_quick.cfg"),
+                               ("LSAnyTrial", "I_C03_Monotone", "MCDriver_quick.cfg"),
+                               # the two mechanisms repaired by fixes ad0fb3f / 645f7b7 (curvature filter after the stop tests;
+                               # no filter after the initial update of a restart)
+                               ("FilterAfterTests", "I_C13_ReturnFiltered", "MCDriver_rewrite.cfg"),
+                               ("NoFilter0", "I_C13_ReturnFiltered", "MCDriver_rewrite.cfg"),
+                               # fix 32361ca: ftol tested before the target when an update function is present
+                               ("FtolFirstWithUpd", "I_C13_TargetFirst", "MCDriver_quick.cfg")):
+        cfg = open(SPEC / base).read().replace('Variant = "none"', f'Variant = "{variant}"')
         p = ctx.tmp / f"MCDriver_{variant}.cfg"
         p.write_text(cfg)
         r = run_tlc(ctx, f"variant {variant}", "MCDriver", str(p), timeout=900, record=False)
